@@ -36,6 +36,7 @@ def check(ctx, cfg):
     r2(ctx, cfg)
     r3(ctx, cfg)
     r4(ctx, cfg)
+    r5(ctx, cfg)
 
 
 def _fields_of(F, adt):
@@ -367,3 +368,38 @@ def post(ctx, thorough):
     for name, ok, detail in res:
         ctx.ob("C20.W", "witness", name, ok, detail, sample=detail[:160])
     return {"witnesses": [r[0] for r in res]}
+
+
+def r5(ctx, cfg):
+    """"(defaults for the rest)": the two constructors of the builder agree on every default - `new()` and `new_custom()` build
+    the same value field by field (they differ only in the message types of the chain), `Default` is `new()`, and the block
+    both start from is `mock_env().block` as it is"""
+    F, P = cfg.facts, cfg.prov
+    R = "C20.R5"
+    a, b = ctx.need_fn(R, AB + "::new"), ctx.need_fn(R, AB + "::new_custom")
+    if a is None or b is None:
+        return
+    ra, rb = peel(P.ret(a)), peel(P.ret(b))
+    # (one constructor written as a call of the other agrees with it by construction)
+    if ra[0] == "call" and ra[1] == AB + "::new_custom" and rb[0] == "agg":
+        ra = rb
+    if rb[0] == "call" and rb[1] == AB + "::new" and ra[0] == "agg":
+        rb = ra
+    ok = ra[0] == "agg" and rb[0] == "agg"
+    diff = []
+    if ok:
+        da, db = dict(ra[2]), dict(rb[2])
+        for fld in sorted(set(da) | set(db)):
+            x, y = fmt(deep_peel(da.get(fld, ("?",)))), fmt(deep_peel(db.get(fld, ("?",))))
+            if x != y:
+                diff.append("%s: %s vs %s" % (fld, x[:50], y[:50]))
+    ctx.ob(R, AB + "::new_custom", "same-defaults-as-new", ok and not diff, "new() and new_custom() disagree on %s" % (diff or "their shape"), fn=b,
+           sample="identical field by field")
+    if ok:
+        blk = peel(dict(ra[2]).get("block", ("?",)))
+        okb = blk[0] == "field" and blk[2] == "block" and peel(blk[1])[0] == "call" and peel(blk[1])[1] == "cosmwasm_std::testing::mock_env"
+        ctx.ob(R, AB + "::new", "default-block-is-mock_env().block", okb, "the default block is %s" % fmt(blk)[:80], fn=a, sample="mock_env().block")
+    d = F.fn("<%s as std::default::Default>::default" % AB)
+    if d is not None:
+        rd = peel(P.ret(d))
+        ctx.ob(R, d.key, "default-is-new", rd[0] == "call" and rd[1] == AB + "::new", "Default for AppBuilder returns %s" % fmt(rd)[:80], fn=d, sample="Self::new()")
